@@ -162,9 +162,20 @@ class KaniUnit:
             return False
         text = open(os.path.join(self.dir(), "kani.out"), errors="replace").read()
         names = set(re.findall(r"error\[E0425\]: cannot find (?:function|value) `([A-Za-z_0-9]+)` in this scope", text))
-        if not names:
+        methods = set(re.findall(r"error\[E0599\]: no method named `([A-Za-z_0-9]+)` found for (?:struct|enum|reference|mutable reference) `&?(?:mut )?([A-Za-z_0-9]+)", text))
+        if not names and not methods:
             return False
         added = []
+        for (mname, ty) in sorted(methods):
+            for f in self.auto_files:
+                try:
+                    got = extract([{"id": "x", "file": f, "locator": {"kind": "impl_fn", "self_ty": ty, "name": mname, "trait": "-"}}])["x"]
+                except Undecided:
+                    continue
+                got = dict(got, text="impl %s {\n%s\n}" % (ty, got["text"]))
+                added.append(got)
+                self.fragments.append(dict(frag_record(got), note="pulled in automatically: method `%s::%s` is now called by a fragment" % (ty, mname)))
+                break
         for n in sorted(names):
             for f in self.auto_files:
                 got = None
@@ -185,7 +196,7 @@ class KaniUnit:
         if marker not in self.files[main]:
             self.files[main] += "\n" + marker + "\n"
         self.files[main] = self.files[main].replace(marker, "\n".join(a["text"] for a in added) + "\n" + marker)
-        self.rewrites.append({"rule": "auto-deps", "before": "unresolved names %s" % sorted(names), "after": "%d items extracted verbatim" % len(added), "times": len(added)})
+        self.rewrites.append({"rule": "auto-deps", "before": "unresolved names %s %s" % (sorted(names), sorted(methods)), "after": "%d items extracted verbatim" % len(added), "times": len(added)})
         return True
 
     def _run_once(self, log):
